@@ -6,9 +6,9 @@ CHECKS = {
   "technique": "Coq-verified graph checkers (truthfulness, reachability, refutation by sound propagation+splitting, RUP core certificate) applied to the implementation's conflict graphs",
  },
  "C06": {
-  "text": "Every case is solved in several separate processes (per-process ahash seeds), debug and release, twice per process with fresh solvers: solution order, provider call order, conflict graph, graphviz and message text must be identical. A census of hash-container iteration sites in the anchored files is compared with a committed list that records why each site cannot leak its order (the order-independence of ConflictGraph::simplify is a theorem of the renderer model).",
-  "technique": "cross-process / cross-instance differential execution + hash-iteration census (order-independence theorem for simplify in the renderer model)",
-  "note": "A Gallina function is deterministic by construction; the content of this property is in the execution and the census.",
+  "text": 'Coq: C06_simplify_order_independent (the only hash-container iteration in the conflict report cannot leak its order). Every case is solved in several separate processes (per-process ahash seeds), debug and release, twice per process with fresh solvers: solution order, provider call order, conflict graph, graphviz and message text must be identical; a census of hash-container iteration sites in the anchored files is compared with a committed list that records why each site is harmless.',
+  "technique": 'cross-process / cross-instance differential execution + hash-iteration census + Coq order-independence theorem for simplify',
+  "note": 'A Gallina function is deterministic by construction; the content of this property is in the execution and the census.',
  },
  "C09": {
   "text": "Coq: declarative predicates over provider-call histories (Causal, Once, Exact in Async/History.v) with executable checkers proven equivalent for every provider and every history (causalb_spec, onceb_spec, exactb_spec). The real solver's call history (no hints; 1-3 solves per solver; sync and yielding runtimes) is judged by the extracted checkers; exactness is checked whenever the verified greedy oracle applies.",
@@ -71,9 +71,9 @@ CHECKS = {
   "note": "Termination of the CDCL loop is observed (poll watchdog), not proved: 'returns a solution whenever one exists' is proved for runs that end.",
  },
  "C04": {
-  "text": "Every generated universe is solved and every conflict rendered under catch_unwind, a poll watchdog and an output-size cap, debug and release. Partial: panic-freedom/termination theorems for the renderer model are added later.",
-  "technique": "panic/hang/size search on the implementation (model theorems for the renderer to follow)",
-  "note": "partial: outer CDCL loop termination is observed, not proved.",
+  "text": 'Coq: executable model of the conflict renderer (simplify, installable/missing sets, the fmt_graph stack machine with path and expanded sets, message text): termination with an explicit fuel bound for every graph incl. cycles (C04_render_terminates), proven line bound lin_bound = (7 + 3*con_width)*E + 1 and byte bound (C04_render_lines_linear, C04_render_size_bound), the pre-fix renderer provably loops on the cyclic corpus graph (C04_pre_fix_renderer_loops) and the path-only renderer is exponential (C04_path_only_exponential). Tie: every generated conflict message is compared BYTE FOR BYTE with the extracted model and against the proven bound, a sample re-proved inside Coq; all streams run under catch_unwind, a poll watchdog and an output cap in debug and release.',
+  "technique": 'Coq termination/size proofs of a renderer model with byte-exact correspondence + panic/hang/size search on the implementation',
+  "note": 'PARTIAL: panic-freedom of the solver itself is searched (debug+release, corpus of former panics), not proved; termination of the outer CDCL loop is observed, not proved.',
  },
  "C05": {
   "text": 'Coq: support theorem for every legal final trail (supported sub-model argument, induction along the trail; C05_supported / C05_trace_supported) plus run invariant (every reachable trail is legal). Hook logs are replayed by the extracted checker; every returned solution is also judged by the verified support oracle.',
